@@ -442,6 +442,7 @@ Qed.
 Definition wf_tree (t : stree) (ro : roster) : Prop :=
   t_ro t = Some ro /\ NoDup (map s_id (r_list ro)) /\
   (forall x, In x (flat (t_root t)) -> nth_error (r_list ro) (n_ridx x) = Some (n_srv x)) /\
+  (forall x, In x (flat (t_root t)) -> s_nokey (n_srv x) = false) /\
   aggs_computed G gadd (t_root t).
 
 (* current form: the holder answers a version-1 request with description + roster; the
@@ -456,14 +457,14 @@ Theorem learnt_equals_sender : forall fx (holder asker : cst) (t : stree) ro,
     get_tree asker' (t_id t) = Some t /\
     (forall tid, tid <> t_id t -> lookup (c_store asker') tid = lookup (c_store asker) tid).
 Proof.
-  intros fx holder asker t ro (Hro & Hnd & Hall & Hagg) Hnz Hget Hreq.
+  intros fx holder asker t ro (Hro & Hnd & Hall & Hkey & Hagg) Hnz Hget Hreq.
   exists (to_marshal t). eexists. split; [|split; [|split]].
   - cbn [step]. rewrite Hget. cbn. rewrite Hro. reflexivity.
   - cbn [step]. unfold handle_send_tree.
     assert (Etid : tm_tid (to_marshal t) = t_id t) by (unfold to_marshal; rewrite Hro; reflexivity).
     rewrite Etid. destruct (t_id t =? 0) eqn:E0; [apply Nat.eqb_eq in E0; congruence|].
     rewrite Hreq. cbn [negb].
-    destruct (roundtrip G gadd (fix_f06 fx) (fix_n2 fx) t ro Hro Hnd Hall) as (_ & E & _).
+    destruct (roundtrip G gadd (fix_f06 fx) (fix_n2 fx) t ro Hro Hnd Hall Hkey) as (_ & E & _).
     rewrite (E Hagg). reflexivity.
   - unfold get_tree. rewrite register_store, Nat.eqb_refl. reflexivity.
   - intros tid Hne. rewrite register_store. destruct (t_id t =? tid) eqn:E; [apply Nat.eqb_eq in E; congruence|reflexivity].
@@ -481,7 +482,7 @@ Theorem learnt_equals_sender_deprecated : forall fx (asker : cst) (t : stree) ro
     step gadd fx a1 (PRoster ro) = (a2, [], Fine) /\
     get_tree a2 (t_id t) = Some t.
 Proof.
-  intros fx asker t ro pick (Hro & Hnd & Hall & Hagg) Hnz Hrz Hreq Hpl Hir Hpe.
+  intros fx asker t ro pick (Hro & Hnd & Hall & Hkey & Hagg) Hnz Hrz Hreq Hpl Hir Hpe.
   assert (Etid : tm_tid (to_marshal t) = t_id t) by (unfold to_marshal; rewrite Hro; reflexivity).
   assert (Erid : tm_rid (to_marshal t) = r_id ro) by (unfold to_marshal; rewrite Hro; reflexivity).
   eexists. eexists. split; [|split].
@@ -496,7 +497,7 @@ Proof.
     match goal with |- context [tree_state ?s1 (t_id t)] => rewrite (Hst s1) end.
     2:{ destruct (fix_n1 fx); reflexivity. }
     rewrite andb_false_r.
-    destruct (roundtrip G gadd (fix_f06 fx) (fix_n2 fx) t ro Hro Hnd Hall) as (_ & E & _).
+    destruct (roundtrip G gadd (fix_f06 fx) (fix_n2 fx) t ro Hro Hnd Hall Hkey) as (_ & E & _).
     rewrite (E Hagg). reflexivity.
   - unfold get_tree. rewrite register_store, Nat.eqb_refl. reflexivity.
 Qed.
@@ -575,6 +576,6 @@ Example learnt_example :
 Proof.
   split.
   - split; [reflexivity|]. split; [repeat constructor; cbn; intuition discriminate|].
-    split; [intros x [<-|[<-|[]]]; reflexivity|reflexivity].
+    split; [intros x [<-|[<-|[]]]; reflexivity|]. split; [intros x [<-|[<-|[]]]; reflexivity|reflexivity].
   - do 4 eexists. repeat split; vm_compute; reflexivity.
 Qed.
